@@ -33,6 +33,8 @@ type SeqProfile struct {
 	PDelAll   float64 // a body step narrows the selection with a filter and deletes all of it (txn.DeleteAll)
 	PDropCol  float64 // a schema step may drop a data column (and later create it again)
 	SortFirst bool    // create the sorted indexes before any data
+	IdxFirst  bool    // create the bitmap indexes and triggers before any data, in the order listed
+	PIdxStep  float64 // probability that a schema step is an index create / drop (else the kind is drawn uniformly)
 	PDelete   float64
 	PInsert   float64
 	MaxBody   int
@@ -165,7 +167,11 @@ func (g *seqGen) schemaStep() {
 	if g.p.PDropCol > 0 {
 		n = 5
 	}
-	switch g.rnd.Intn(n) {
+	kind := g.rnd.Intn(n)
+	if g.rnd.Float64() < g.p.PIdxStep {
+		kind = 1
+	}
+	switch kind {
 	case 4: // drop a data column (what was computed from it stays, detached); it may come back later, empty
 		if g.rnd.Float64() >= g.p.PDropCol {
 			return
@@ -380,6 +386,20 @@ func RunSeq(seed int64, p SeqProfile) (out []Ev) {
 			c.CreateColumn(d)
 		}
 	}
+	if p.IdxFirst {
+		for _, x := range p.Idx {
+			g.P.CreateIndex(x)
+			for _, c := range copies {
+				c.CreateIndex(x)
+			}
+		}
+		for _, x := range p.Trigs {
+			g.P.CreateTrigger(x[0], x[1])
+			for _, c := range copies {
+				c.CreateTrigger(x[0], x[1])
+			}
+		}
+	}
 	if p.SortFirst {
 		for _, x := range p.Sorts {
 			g.P.CreateSort(x[0], x[1])
@@ -423,13 +443,14 @@ func RunSeq(seed int64, p SeqProfile) (out []Ev) {
 					nonKey = append(nonKey, d)
 				}
 			}
+			fail := g.rnd.Float64() < 0.25
 			switch g.rnd.Intn(4) {
 			case 0:
-				g.P.ShortInsertKey("m", key, g.writes(nonKey, g.rnd.Intn(3), 0, false))
+				g.P.ShortInsertKey("m", key, g.writes(nonKey, g.rnd.Intn(3), 0, false), fail)
 			case 1:
-				g.P.ShortUpsertKey("m", key, g.writes(nonKey, g.rnd.Intn(3), 0, false))
+				g.P.ShortUpsertKey("m", key, g.writes(nonKey, g.rnd.Intn(3), 0, false), fail)
 			case 2:
-				g.P.ShortQueryKey("m", key, g.writes(nonKey, g.rnd.Intn(2), 0, false), []int{0, 2}[g.rnd.Intn(2)])
+				g.P.ShortQueryKey("m", key, g.writes(nonKey, 1+g.rnd.Intn(2), 0, false), []int{0, 2}[g.rnd.Intn(2)], fail)
 			default:
 				g.P.ShortDeleteKey("m", key)
 			}
